@@ -9,6 +9,7 @@ import (
 	"time"
 
 	biscuit "github.com/biscuit-auth/biscuit-go/v2"
+	"github.com/biscuit-auth/biscuit-go/v2/datalog"
 	"github.com/biscuit-auth/biscuit-go/v2/parser"
 
 	"verif/harness/ast"
@@ -24,7 +25,7 @@ import (
 // + a constant-state sequential model: every concurrent result must equal the result of the
 // same call made alone.
 
-var c19OpNames = []string{"AuthorizerFor", "Authorize", "Query", "String", "Code", "GetBlockID", "CreateBlock+Add+Build", "Append", "Seal", "Serialize", "RevocationIds", "Parse", "Checks+Context", "AuthorizerFor(tampered sealed copy)"}
+var c19OpNames = []string{"AuthorizerFor", "Authorize", "Query", "String", "Code", "GetBlockID", "CreateBlock+Add+Build", "Append", "Seal", "Serialize", "RevocationIds", "Parse", "Checks+Context", "AuthorizerFor(tampered sealed copy)", "Authorize into a run limit"}
 
 type c19Shared struct {
 	tok     *lib.Token
@@ -154,6 +155,21 @@ func c19Op(sh *c19Shared, op int, label string) string {
 		}
 		_, err = b.AuthorizerFor(biscuit.WithSingularRootPublicKey(t.Pub), sh.opt)
 		return fmt.Sprint(err)
+	case 14: // an evaluation that ends in a limit error; what the error says belongs to this call alone
+		n := 3 + len(label)%5
+		a, err := t.B.AuthorizerFor(biscuit.WithSingularRootPublicKey(t.Pub), biscuit.WithWorldOptions(datalog.WithMaxFacts(n), datalog.WithMaxIterations(4), datalog.WithMaxDuration(60*time.Second)))
+		if err != nil {
+			return "ERR " + err.Error()
+		}
+		for i := 0; i < n+4; i++ {
+			a.AddFact(ast.P("limit_filler_"+label, ast.Int(int64(i))).LibFact())
+		}
+		a.AddPolicy(sh.pPolicy)
+		e1 := a.Authorize()
+		txt := fmt.Sprint(e1)
+		// the error keeps saying the same thing while other goroutines run into limits of their own
+		runtime.Gosched()
+		return txt + " / " + fmt.Sprint(e1) + " / " + string(lib.Classify(e1))
 	default:
 		return fmt.Sprint(len(t.B.Checks()), t.B.GetContext(), t.B.BlockCount(), idText(t.B.RootKeyID()))
 	}
